@@ -610,6 +610,11 @@ func execCase(c *core.Case, mc *muCase) {
 		return
 	}
 	defer w.shutdown()
+	// (deterministic in the case: the presences of every third case alternate)
+	if c.Index%3 == 1 {
+		n := 0
+		w.extraX = func() bool { n++; c.Count("presences_with_a_second_x_element", n%2); return n%2 == 1 }
+	}
 	d := &driver{c: c, w: w, mc: mc, base: base, calls: map[string]*call{}, chans: map[string]*muc.Channel{}, allChans: map[string][]*muc.Channel{}, occ: map[string]string{}, pending: map[string]int{}}
 	for _, st := range mc.Steps {
 		d.exec(st)
